@@ -554,6 +554,9 @@ func mkEq(x, y *Term) *Term {
 		x, y = y, x
 	}
 	if y.isConst() {
+		if y.val > termUB(x) || y.val < termLB(x) {
+			return tFalse
+		}
 		switch x.op {
 		case OpZext:
 			in := x.args[0]
@@ -688,6 +691,32 @@ func termUB(t *Term) uint64 {
 	return r
 }
 
+// termLB returns a lower bound of t read as an unsigned number (cheap, syntactic).
+func termLB(t *Term) uint64 {
+	switch t.op {
+	case OpConst:
+		return t.val
+	case OpZext:
+		return termLB(t.args[0])
+	case OpAdd:
+		a, b := termUB(t.args[0]), termUB(t.args[1])
+		if s := a + b; s >= a && s <= mask(t.w) { // no wrap-around possible
+			return termLB(t.args[0]) + termLB(t.args[1])
+		}
+	case OpIte:
+		a, b := termLB(t.args[1]), termLB(t.args[2])
+		if b < a {
+			a = b
+		}
+		return a
+	case OpConcat:
+		if t.w <= 64 {
+			return termLB(t.args[0])<<uint(t.args[1].w) | termLB(t.args[1])
+		}
+	}
+	return 0
+}
+
 func mkCmp(op Op, x, y *Term) *Term {
 	if x.w != y.w {
 		panic("mkCmp: width mismatch")
@@ -696,6 +725,17 @@ func mkCmp(op Op, x, y *Term) *Term {
 	// cheap range reasoning against constants
 	if y.isConst() && !x.isConst() {
 		ub := termUB(x)
+		lb := termLB(x)
+		switch op {
+		case OpUlt:
+			if lb >= y.val {
+				return tFalse
+			}
+		case OpUle:
+			if lb > y.val {
+				return tFalse
+			}
+		}
 		switch op {
 		case OpUlt:
 			if ub < y.val {
@@ -717,6 +757,17 @@ func mkCmp(op Op, x, y *Term) *Term {
 	}
 	if x.isConst() && !y.isConst() {
 		ub := termUB(y)
+		lb := termLB(y)
+		switch op {
+		case OpUlt: // c < y
+			if x.val < lb {
+				return tTrue
+			}
+		case OpUle:
+			if x.val <= lb {
+				return tTrue
+			}
+		}
 		switch op {
 		case OpUlt: // c < y
 			if ub <= x.val {
